@@ -97,10 +97,11 @@ CLAIMED = {
  "C05": dict(text="Theorems (any field of characteristic 0 with i^2=-1; every order n, every wavenumber list): the derivative multiplier and gradient-axis placement, Laplace operator of order 2n = "
                   "(-1)^n sum kappa^(2n), gradient inner product of order 2n+1 = i (-1)^n sum v kappa^(2n+1), order 0 = 1, parity guards (translated from the source); the Poisson solver returns "
                   "lam*u = -f where the symbol lam is non-zero and 0 where it vanishes; over a formally real field the order-2 symbol vanishes exactly at the mean mode. Operator arrays, "
-                  "Poisson._inv_operator/step_fourier compared with the extracted model at every stored mode in exact rationals (incl. L = 1e5 and 1e-3).",
+                  "Poisson._inv_operator/step_fourier compared with the extracted model at every stored mode in exact rationals (incl. L = 1e5 and 1e-3). build_derivative_operator / "
+                  "build_scaled_wavenumbers are re-translated from the source on every run and proved to be i (2 pi / L) k_c with k_c the layout's signed wavenumber (any D, both indexings).",
              note="Symbol calculus for exponentials and the rfftn/irfftn contract (C04) are used; ex.derivative and Poisson are additionally checked against analytic derivatives/solutions of random "
                   "Nyquist-free trigonometric polynomials on the real code.",
-             technique="Rocq proof (ring/field identities, formal reality) + exact-rational operator correspondence", design="§4 C05"),
+             technique="Rocq proof (ring/field identities, formal reality; derivative operator regenerated from the source by an AST translator) + exact-rational operator correspondence", design="§4 C05"),
  "C10": dict(text="Theorems (any field of characteristic 0, D = 2, 3, every mode, every input): the Leray projection has zero divergence wherever the Laplace symbol is non-zero, is idempotent, fixes "
                   "divergence-free fields and is the identity at the mean mode; make_incompressible equals it at every mode (premise: Laplace symbol vanishes only where d = 0, proved for real "
                   "wavenumbers over a formally real field, hence independent of L); every ETDRK order 0-4 (stage programs translated from the source) maps divergence-free states to divergence-free "
@@ -121,10 +122,13 @@ CLAIMED = {
                   "the leading axes and preserve the signed wavenumber when copied to a finer grid; oddball mask spec; both indexing options give wavenumber_shape with the rfft component on the "
                   "last array axis and components aligned with the grid (D<=3); wrap_bc. (Any field with a primitive n-th root, all n) orthogonality, idft.dft = id for every state, a sampled "
                   "character appears in exactly the named mode with value n*c, shift theorem, convolution theorem. The integer layout model is compared element by element with "
-                  "build_wavenumbers/scaling arrays/masks/slices/wrap_bc/make_grid on every run.",
+                  "build_wavenumbers/scaling arrays/masks/slices/wrap_bc/make_grid on every run. The layout functions of _spectral.py (wavenumber_shape, spatial_shape, "
+                  "space_indices, build_wavenumbers ij/xy, both low-pass masks, the oddball mask, _build_scaling_array and the three public modes, the three slices of get_modes_slices) "
+                  "are re-translated from the source on every run (harness/translate/spectral.py: symbolic execution with callees inlined, fail-closed) and proved equal to the layout model "
+                  "for every D, N, cutoff and stored index.",
              note="jnp.fft.rfftn/irfftn are trusted to be the D-fold iterate of the 1-D DFT restricted to the half spectrum (checked against a brute-force DFT); the magnitude/phase read-off "
                   "through the scaling arrays is checked on the real code for every wavenumber vector of the layout (witness), the scaling model itself is tied by exact correspondence.",
-             technique="Rocq proof (lia/nia on the integer layout; field-theoretic DFT theory from a primitive root) + exhaustive exact correspondence", design="§4 C04"),
+             technique="Rocq proof (lia/nia on the integer layout; field-theoretic DFT theory from a primitive root; layout functions regenerated from the source by an AST translator and proved equal to the model) + exhaustive exact correspondence", design="§4 C04"),
  "C01": dict(text="Theorems over any field of characteristic 0 with an abstract exponential (exp(a+b)=exp a exp b, exp 0=1): the symbol each linear stepper builds is the symbol of its DOCUMENTED "
                   "operator (deep embedding of constant-coefficient operators; advection, full-matrix diffusion, both dispersion / hyper-diffusion variants, generic list; D<=3); order 0 multiplies "
                   "mode k by exp(dt*lambda_k) (translated from the source); n steps = one step with n*dt and -dt undoes dt for every state, dt, n; the wave stepper's diagonalisation is the exact "
